@@ -1,5 +1,7 @@
 HOOK_COMMITS = ["1ae4f10", "19e3492"]
 ENGINES = [
+    {"name": "gcsim", "path": "/verif/harness/gcsim", "serves_properties": ["C17"],
+     "kind_free_text": "the real flannel GC against a Docker Engine API stub and a CRI gRPC stub on unix sockets, per-case directories"},
     {"name": "netsim", "path": "/verif/harness/netsim", "serves_properties": ["C14", "C15", "C16"],
      "kind_free_text": "strict kernel-faithful fakes of iptables/ipset (/verif/harness/nf) + packet walker; the real portmapping handler and policy manager run on them"},
     {"name": "galaxysim", "path": "/verif/harness/galaxysim", "serves_properties": ["C12", "C13"],
@@ -73,3 +75,7 @@ TEXTS["C15"] = {"engine": "netsim", "design_ref": "DESIGN.md §4 C15", "level_no
 TEXTS["C16"] = {"engine": "netsim", "design_ref": "DESIGN.md §4 C16", "level_note": _E3_NOTE,
     "technique": "differential property testing (rapid): packet walk over the installed rules vs. a reference NetworkPolicy evaluator, exhaustive flow enumeration per generated cluster",
     "level_text": "Every flow of a per-case universe is judged by the installed rules (packet walker over the strict fakes' tables) and by an independent evaluator of the API semantics; confirmed deviations are explicit, toggleable parts of the evaluator so that only unexplained mismatches raise an alarm."}
+TEXTS["C17"] = {"engine": "gcsim", "design_ref": "DESIGN.md §4 C17",
+    "level_note": "Trusted: the runtime stubs and the per-file keep/remove model. The veth collector needs netlink and is out of reach.",
+    "technique": "fault-injection property testing (rapid): generated container-state mixes, directory contents and runtime faults vs. a per-file keep/remove model",
+    "level_text": "Every generated mix of container states and runtime faults is run through the real GC against stub runtimes; the directory contents and port-clean callbacks are compared with a model file by file."}
